@@ -279,6 +279,38 @@ def check(prog, res, tier):
             return fails
         res.add(u.runs.judge('C08.f', title, func_where(u.fi), 'field_pointer += ...', chk_f, rule=f'C08.f.{key}'))
 
+        def chk_exit(p, mode, u=u):
+            """leaving the walk through its loop condition means no unread bytes remain"""
+            if p.outcome != 'return':
+                return []
+            st = p.store
+            src = p.interp.user['unit_args'][0][0].segs[0].src
+            fails = []
+            if mode == 'inv':
+                exits = [e for e in p.events if e.kind == 'loop-exit' and e.func == u.name and e.data['how'] == 'cond']
+                heads = [e for e in p.events if e.kind == 'loop-head' and e.func == u.name]
+                if not exits or not heads:
+                    return []
+                curs = [g for k, g in heads[-1].data['gen'].items() if k[0] == 'local' and isinstance(g, IntV)]
+            else:
+                ends = [e for e in p.events if e.kind == 'loop-end-snap' and e.func == u.name]
+                if not ends:
+                    return []
+                names = chk_exit.names
+                curs = [v for k, v in ends[-1].data['snap'].items() if k[0] == 'local' and k[1] in names and isinstance(v, IntV)]
+                # a walk left by break does not record an end snapshot for the condition exit; only condition exits here
+            if mode == 'inv':
+                for k, g in heads[-1].data['gen'].items():
+                    if k[0] == 'local' and isinstance(g, IntV):
+                        chk_exit.names.add(k[1])
+            for c in curs:
+                fails += need_ge0(st, c.lin - src.length, f'the sub-element walk stops at offset {st.canon(c.lin)} although '
+                                                          f'{st.canon(src.length)} bytes are present: trailing sub-elements are dropped')
+            return fails
+        chk_exit.names = set()
+        res.add(u.runs.judge('C08.f', f'{key.upper()} walk: leaving the loop through its condition means the whole field was consumed',
+                             func_where(u.fi), 'while field_pointer < len(field_data)', chk_exit, rule=f'C08.f.exit.{key}'))
+
 
 def _sym_tags(p, sym):
     o = p.interp.origin.get(sym)
